@@ -122,6 +122,11 @@ class Tr8(Tr):
             return acc
         if isinstance(n, ast.Tuple):
             return "(" + ", ".join(self.e(x) for x in n.elts) + ")"
+        if isinstance(n, ast.IfExp):
+            c, a, b = self.e(n.test), self.e(n.body), self.e(n.orelse)
+            if "←" in a or "←" in b:        # only the chosen branch is evaluated
+                return f"(← (if {c} then (do return {a}) else (do return {b})))"
+            return f"(if {c} then {a} else {b})"
         return super().e(n)
 
     def typeof(self, n):
